@@ -10,6 +10,7 @@
  */
 #include <string>
 #include <vector>
+#include <functional>
 #include <complex>
 #include <map>
 #include <typeinfo>
@@ -267,6 +268,9 @@ static void scenario_addcrystal(int fd) {
   say("info", "accepted=" + std::to_string(accepted) + " refused=" + std::to_string(refused));
 }
 
+struct DuringUnwind { std::function<void()> f; ~DuringUnwind() { f(); } };
+static long unwound = 0;
+
 int main(int argc, char **argv) {
   if (argc < 5 || strcmp(argv[1], "run")) { fprintf(stderr, "usage: cppmon run req str out\n"); return 2; }
   FILE *f = fopen(argv[2], "rb"); if (!f) return 2;
@@ -285,7 +289,10 @@ int main(int argc, char **argv) {
     if (r->fn < XV_NFN && !CPP_WRAPPED[r->fn]) { skipped++; continue; }
     if (S(r->s) == NULL && r->fn >= XV_NFN && (r->fn != XS_AtomicNumberToSymbol && r->fn != XS_Atomic_Factors && r->fn != XS_NISTByIndex_summary && r->fn != XS_RadioByIndex_summary && r->fn < 2001)) { skipped++; continue; }   /* the object wrappers take std::string: it cannot be NULL */
     size_t b0 = bal();
-    xrl_error *e = NULL; Out c = c_side(r, &e); Out w = cpp_side(r);
+    xrl_error *e = NULL; Out c = c_side(r, &e); Out w;
+    /* one wrapper call in five is made from a destructor WHILE A HOST EXCEPTION PROPAGATES (an RAII object of the host that uses the library
+     * during stack unwinding): std::uncaught_exception() is then true although nothing is wrong with this call */
+    if (k % 5 == 3) { try { DuringUnwind g{[&] { w = cpp_side(r); }}; throw 17; } catch (int) {} unwound++; } else w = cpp_side(r);
     Stat &st = stats[r->fn]; st.calls++;
     std::string fn = fname(r->fn);
     if (w.kind == 8) { skipped++; if (e) xrl_error_free(e); continue; }      /* no way to hand this wrapper a NULL compound */
@@ -324,7 +331,7 @@ int main(int argc, char **argv) {
   auto js = [&](const std::string &s) { fputc('"', o); for (char ch : s) { unsigned char c = (unsigned char)ch; if (c == '"' || c == '\\') { fputc('\\', o); fputc(c, o); } else if (c < 32 || c > 126) fputc('?', o); else fputc(c, o); } fputc('"', o); };
   for (auto &kv : viol) { fprintf(o, "{\"type\":\"viol\",\"key\":"); js(kv.first); fprintf(o, ",\"what\":"); js(kv.second.what); fprintf(o, ",\"witness\":"); js(kv.second.witness); fprintf(o, ",\"count\":%ld}\n", kv.second.count); }
   for (auto &kv : stats) { fprintf(o, "{\"type\":\"fn\",\"fn\":"); js(fname(kv.first)); fprintf(o, ",\"calls\":%ld,\"value\":%ld,\"invalid_argument\":%ld,\"bad_alloc\":%ld,\"runtime_error\":%ld,\"other\":%ld}\n", kv.second.calls, kv.second.exc[0], kv.second.exc[1], kv.second.exc[2], kv.second.exc[3], kv.second.exc[4]); }
-  fprintf(o, "{\"type\":\"summary\",\"requests\":%ld,\"skipped\":%ld,\"leakchecks\":%ld,\"asan\":%d,\"scenario_accepted\":%ld,\"scenario_refused\":%ld}\n", n, skipped, leakchecks, XV_ASAN, sc_accepted, sc_refused);
+  fprintf(o, "{\"type\":\"summary\",\"requests\":%ld,\"skipped\":%ld,\"leakchecks\":%ld,\"asan\":%d,\"scenario_accepted\":%ld,\"scenario_refused\":%ld,\"during_unwinding\":%ld}\n", n, skipped, leakchecks, XV_ASAN, sc_accepted, sc_refused, unwound);
   fclose(o);
   free(rq); free(sbuf); free(g_str);
   return 0;
